@@ -153,6 +153,7 @@ func (l *lexer) backup() {
 
 // emit passes an item back to the client.
 func (l *lexer) emit(t itemType) {
+	verifLexEmit(l, t, l.start, l.pos)
 	l.items <- item{t, l.start, l.interner.Intern(l.input[l.start:l.pos])}
 	l.start = l.pos
 }
@@ -188,6 +189,7 @@ func (l *lexer) lineNumber() int {
 // errorf returns an error token and terminates the scan by passing
 // back a nil pointer that will be the next state, terminating l.nextItem.
 func (l *lexer) errorf(format string, args ...interface{}) stateFn {
+	verifLexEmit(l, itemError, l.start, l.start)
 	l.items <- item{itemError, l.start, fmt.Sprintf(format, args...)}
 	return nil
 }
@@ -195,6 +197,7 @@ func (l *lexer) errorf(format string, args ...interface{}) stateFn {
 // nextItem returns the next item from the input.
 func (l *lexer) nextItem() item {
 	item := <-l.items
+	verifLexRecv(l, item)
 	l.lastPos = item.pos
 	return item
 }
@@ -217,6 +220,7 @@ func lexWithInterner(name, input string, interner *StringInterner) *lexer {
 
 // run runs the state machine for the lexer.
 func (l *lexer) run() {
+	defer verifLexExit(l)
 	for l.state = lexStmt; l.state != nil; {
 		l.state = l.state(l)
 	}
